@@ -224,6 +224,11 @@ var c13Core = &vlib.Check{
 	},
 }
 
+// c13AfterSchemaBody: right after a schema body a line may also start with the "//" of a comment that belongs to the
+// schema, so '/' is not a deviating byte there (the error, if any, comes at the byte after it) - such words are not
+// "words at a directive start" and are left out, like '#'.
+func c13AfterSchemaBody(ctx string) bool { return strings.HasSuffix(ctx, "{}\n") }
+
 // c13Random: random words assembled from keyword fragments, near misses and arbitrary bytes at a directive start.
 var c13Random = &vlib.Check{
 	Prop: "C13", Name: "random", Quick: 20000, Thorough: 600000,
@@ -239,7 +244,13 @@ var c13Random = &vlib.Check{
 			base = vlib.Pick(r, kwRef)
 		}
 		w = []byte(base)
-		switch r.Intn(7) {
+		switch r.Intn(8) {
+		case 7: // spellings a number parser accepts but the keyword grammar does not
+			n := 90 + r.Intn(560)
+			w = []byte(fmt.Sprintf(vlib.Pick(r, []string{"+%d", "-%d", "%d.0", "0%d", "%de0", "0x%d", "%d_", " %d"})[0:], n))
+			if w[0] == ' ' {
+				w = w[1:]
+			}
 		case 0: // exact
 		case 1: // truncate
 			w = w[:r.Intn(len(w))+1]
@@ -256,7 +267,7 @@ var c13Random = &vlib.Check{
 		case 6: // append second keyword / digits
 			w = append(w, []byte(vlib.Pick(r, kwRef))...)
 		}
-		if len(w) == 0 || isDirectiveStartTrivia(w[0]) {
+		if len(w) == 0 || isDirectiveStartTrivia(w[0]) || (w[0] == '/' && c13AfterSchemaBody(ctx)) {
 			return nil
 		}
 		return &vlib.Case{Project: vlib.SingleFile(w), Params: map[string]any{"ctx": ctx}}
@@ -337,7 +348,7 @@ func TestC13(t *testing.T) {
 							p := live[idx]
 							w := p + string([]byte{byte(b)})
 							b++
-							if len(p) == 0 && isDirectiveStartTrivia(w[0]) {
+							if len(p) == 0 && (isDirectiveStartTrivia(w[0]) || (w[0] == '/' && c13AfterSchemaBody(ctx))) {
 								continue
 							}
 							scans++
